@@ -255,6 +255,7 @@ def build():
             '       implies(k in m._field_sigs, m._field_sigs[k] is old(m._field_sigs[k])))))'],
         note='unique_together is a list of lists of field names (tuples and lists are not distinguished)')
 
+    add_rename_field(w)
     add_gate(w)
     add_small(w)
     fam = Family('contracts.sigsim', w)
@@ -287,6 +288,51 @@ def seq_has(it, e, n):
         it.p.assume(z3.ForAll([L, A, N, Q], z3.Implies(z3.And(0 <= Q, Q < L, z3.Select(A, Q) == N), f(L, A, N)),
                               patterns=[z3.MultiPattern(f(L, A, N), z3.Select(A, Q))]))
     return K.vbool(f(ln, arr, n.t))
+
+
+def add_rename_field(w):
+    """RenameField.simulate: the field signature moves to the new name; its table (many-to-many) or column name is the one
+    the mutation states - or none, meaning Django's default for the new name; every other attribute is kept."""
+    RENF = 'django_evolution/mutations/rename_field.py'
+    w.cls('RenameField', {'model_name': K.Str, 'old_field_name': K.Str, 'new_field_name': K.Str,
+                          'db_column': K.Opt(VAL), 'db_table': K.Opt(VAL)}, bases=['BaseMutation'], module=RENF)
+    w.stub('FieldSignature.clone', params={'self': K.Ref('FieldSignature')}, returns=K.Ref('FieldSignature'),
+           modifies=['FieldSignature.field_name', 'FieldSignature.field_type', 'FieldSignature.field_attrs',
+                     'FieldSignature.related_model'],
+           ensures=['fresh_ref(result)', 'result.field_name == self.field_name', 'result.field_type == self.field_type',
+                    'result.related_model == self.related_model', 'same(result.field_attrs, self.field_attrs)',
+                    'forall(Ref_Field, lambda f: implies(not fresh_ref(f), f.field_name == old(f.field_name) and '
+                    '       f.field_type == old(f.field_type) and same(f.field_attrs, old(f.field_attrs)) and '
+                    '       f.related_model == old(f.related_model)))'],
+           note='verified in contracts.sigcontainers')
+    OLD = 'old(simulation.get_field_sig(self.model_name, self.old_field_name))'
+    NEW = 'old(simulation.get_model_sig(self.model_name))._field_sigs[self.new_field_name]'
+    w.contract(
+        'RenameField.simulate', module=RENF, serves=['C15', 'C11', 'C12'],
+        params={'self': K.Ref('RenameField'), 'simulation': K.Ref('Simulation')},
+        requires=['self.old_field_name != self.new_field_name'],
+        raises={'SimulationFailure': True, 'MissingSignatureError': True},
+        modifies=['ModelSignature._field_sigs', 'FieldSignature.field_name', 'FieldSignature.field_type',
+                  'FieldSignature.field_attrs', 'FieldSignature.related_model'],
+        ensures=[
+            'self.new_field_name in old(simulation.get_model_sig(self.model_name))._field_sigs',
+            'self.old_field_name not in old(simulation.get_model_sig(self.model_name))._field_sigs',
+            '%s.field_name == self.new_field_name and %s.field_type == %s.field_type and '
+            '%s.related_model == %s.related_model' % (NEW, NEW, OLD, NEW, OLD),
+            # the table of a many-to-many field: exactly what the mutation states
+            "implies(is_m2m(%s.field_type), ('db_table' in %s.field_attrs) == truthy(self.db_table) and "
+            "        implies(truthy(self.db_table), %s.field_attrs['db_table'] == self.db_table))" % (OLD, NEW, NEW),
+            # the column of any other field: likewise
+            "implies(not is_m2m(%s.field_type), ('db_column' in %s.field_attrs) == truthy(self.db_column) and "
+            "        implies(truthy(self.db_column), %s.field_attrs['db_column'] == self.db_column))" % (OLD, NEW, NEW),
+            # every other attribute is carried over
+            "forall(Str, lambda k: implies(k != 'db_table' and k != 'db_column', "
+            "       (k in %s.field_attrs) == (k in %s.field_attrs) and "
+            "       implies(k in %s.field_attrs, %s.field_attrs[k] == %s.field_attrs[k])))" % (NEW, OLD, OLD, NEW, OLD),
+            "implies(is_m2m(%s.field_type), ('db_column' in %s.field_attrs) == ('db_column' in %s.field_attrs))" % (OLD, NEW, OLD),
+            "implies(not is_m2m(%s.field_type), ('db_table' in %s.field_attrs) == ('db_table' in %s.field_attrs))" % (OLD, NEW, OLD),
+        ],
+        note='issubclass(field_type, ManyToManyField) is the uninterpreted predicate is_m2m')
 
 
 def add_gate(w):
